@@ -26,6 +26,11 @@ CHECKS = {
         text="For every FK graph over 2 tables with {no FK, FK, use_alter FK} per ordered pair incl. self references and every graph over 3 tables with {no FK, FK} (thorough: 3 tables with all three kinds = 19683 graphs, part of 4 tables), the DDL emitted by create_all creates every table and every constraint exactly once without ever referencing a table that does not exist yet, use_alter constraints are emitted as ALTER, drop_all removes everything without dropping a table that is still referenced, and sorted_tables lists referenced tables first for every acyclic dependency.",
         note="Trusted: DDL interpreter and regexes in props/C14.py (PostgreSQL-like immediate checking), postgresql DDL compiler output format. The code under test runs on concrete graphs chosen by the solver; the symbolic part of the claim is C19.",
         ref="DESIGN.md §4 C14"),
+    "C16": dict(engine=E1, category="other",
+        technique="solver-chosen histories of schema_translate_map executions (CrossHair + z3, exhaustive per slice) on a real Engine with a shared compiled cache over a recording DBAPI, differential against the same construct built with the translated schema names and compiled on a fresh engine",
+        text="For 8 constructs (select, join, insert, update with scalar subquery, delete, CREATE TABLE, DROP TABLE, CREATE TABLE with FK) over tables in 10 schema assignments and every history (m1, m2, m1) over a pool of 16 maps (identity, swaps, None key, mapping to None, names needing quoting, brackets, a schema literally named _none) -- thorough: every (m1, m2, m3) -- each execution delivers exactly the SQL text of the construct whose tables carry the translated schema names, or is declined with the documented InvalidRequestError/CompileError when its documented condition holds.",
+        note="Trusted: recording DBAPI, DefaultDialect (no default schema name), reference = fresh compilation of the construct with translated schemas. Effects on a real multi-schema database are outside.",
+        ref="DESIGN.md §4 C16"),
     "C18": dict(
         engine=E2, category="translation_validation",
         technique="translation validation of the emitted SELECT structure: re-parsed (native clauses, TOP, ROW_NUMBER wrappers, ROWNUM nesting) and given a relational meaning over a bounded symbolic table; z3 decides multiset equality with the requested slice for all table contents and all limit/offset >= 0; sqlite3 replay where the syntax is accepted",
